@@ -97,7 +97,7 @@ Theorem C06_quoted_is_string : forall c ev,
   deser_scalar c TgAny ev = RStr (sv_value ev) /\
   deser_scalar c TgStr ev = RStr (sv_value ev) /\
   deser_scalar c (TgOption TgString) ev =
-    (if match sv_value ev with [] => negb (is_quoted (sv_style ev)) | _ => false end
+    (if negb (sv_tag ev =? TAG_String) && match sv_value ev with [] => negb (is_quoted (sv_style ev)) | _ => false end
      then RNone else RSome (RStr (sv_value ev))).
 Proof. exact quoted_is_string. Qed.
 Check C06_quoted_is_string : forall c ev,
@@ -106,9 +106,28 @@ Check C06_quoted_is_string : forall c ev,
   deser_scalar c TgAny ev = RStr (sv_value ev) /\
   deser_scalar c TgStr ev = RStr (sv_value ev) /\
   deser_scalar c (TgOption TgString) ev =
-    (if match sv_value ev with [] => negb (is_quoted (sv_style ev)) | _ => false end
+    (if negb (sv_tag ev =? TAG_String) && match sv_value ev with [] => negb (is_quoted (sv_style ev)) | _ => false end
      then RNone else RSome (RStr (sv_value ev))).
 Print Assumptions C06_quoted_is_string.
+
+(* A scalar tagged `!!str` is the string itself for string, optional and untyped targets: never null (nor a
+   number or a boolean), whatever its text, style and the options (F60, fixed). *)
+Theorem C06_str_tagged_is_never_null : forall c ev,
+  sv_tag ev = TAG_String ->
+  deser_scalar c TgString ev = RStr (sv_value ev) /\
+  deser_scalar c TgStr ev = RStr (sv_value ev) /\
+  deser_scalar c TgAny ev = RStr (sv_value ev) /\
+  deser_scalar c (TgOption TgString) ev = RSome (RStr (sv_value ev)) /\
+  deser_scalar c (TgOption TgAny) ev = RSome (RStr (sv_value ev)).
+Proof. exact str_tagged_is_never_null. Qed.
+Check C06_str_tagged_is_never_null : forall c ev,
+  sv_tag ev = TAG_String ->
+  deser_scalar c TgString ev = RStr (sv_value ev) /\
+  deser_scalar c TgStr ev = RStr (sv_value ev) /\
+  deser_scalar c TgAny ev = RStr (sv_value ev) /\
+  deser_scalar c (TgOption TgString) ev = RSome (RStr (sv_value ev)) /\
+  deser_scalar c (TgOption TgAny) ev = RSome (RStr (sv_value ev)).
+Print Assumptions C06_str_tagged_is_never_null.
 
 Theorem C06_tag_table : forall t, sftag_from_optional t <= TAG_Other.
 Proof. exact sftag_from_optional_total. Qed.
